@@ -1039,4 +1039,377 @@ theorem gatingMatches_table_in_code (P : List (Nat × Nat × Nat × Nat)) (S : S
           simp only [List.isEmpty_cons, Bool.false_eq_true, if_false] at hk
           exact ⟨hk, f, hf, rfl, hr⟩
 
+/-! ### C06: dispatch of the hand-written decoders, opaque values -/
+
+theorem decDyn_ok {S : Schema} {fuel d tag : Nat} {c : Cur} {ver : Option Ver} {v : Val} {st : DecSt}
+    (h : decDyn S fuel d tag c ver = .ok (v, st)) : ∃ x, v = .iface (some (d, x)) := by
+  cases fuel with
+  | zero => rw [decDyn] at h; cases h
+  | succ n =>
+    rw [decDyn] at h
+    obtain ⟨⟨x, st'⟩, _, h2⟩ := Res.bind_eq_ok h
+    cases h2
+    exact ⟨_, rfl⟩
+
+theorem decCustom_requestBatchItem {S : Schema} {fuel id tag : Nat} {c : Cur} {ver : Option Ver}
+    {v : Val} {st : DecSt}
+    (h : decCustom S (fuel + 1) Cust.requestBatchItem id tag c ver = .ok (v, st)) :
+    ∃ op bid x me, v = .struct [op, bid, .iface (some (S.payloadDyn op.asInt.toNat false, x)), me] := by
+  rw [decCustom] at h
+  rw [if_neg (by decide)] at h
+  obtain ⟨it, _, h⟩ := Res.bind_eq_ok h
+  obtain ⟨c0, _, h⟩ := Res.bind_eq_ok h
+  obtain ⟨⟨v', ver'⟩, hin, h⟩ := Res.bind_eq_ok h
+  obtain ⟨c', _, h⟩ := Res.bind_eq_ok h
+  cases h
+  rw [if_pos rfl] at hin
+  obtain ⟨⟨op, c1, v1⟩, _, hin⟩ := Res.bind_eq_ok hin
+  obtain ⟨⟨bid, c2, v2⟩, _, hin⟩ := Res.bind_eq_ok hin
+  obtain ⟨⟨pl, c3, v3⟩, hpl, hin⟩ := Res.bind_eq_ok hin
+  obtain ⟨⟨me, c4, v4⟩, _, hin⟩ := Res.bind_eq_ok hin
+  cases hin
+  obtain ⟨x, rfl⟩ := decDyn_ok hpl
+  exact ⟨op, bid, x, me, rfl⟩
+
+theorem decCustom_responseBatchItem {S : Schema} {fuel id tag : Nat} {c : Cur} {ver : Option Ver}
+    {v : Val} {st : DecSt}
+    (h : decCustom S (fuel + 1) Cust.responseBatchItem id tag c ver = .ok (v, st)) :
+    ∃ op bid rst rs msg acv pl me, v = .struct [op, bid, rst, rs, msg, acv, pl, me] ∧
+      (pl = .iface none ∨
+        (0 < op.asInt ∧ ∃ x, pl = .iface (some (S.payloadDyn op.asInt.toNat true, x)))) := by
+  rw [decCustom] at h
+  rw [if_neg (by decide)] at h
+  obtain ⟨it, _, h⟩ := Res.bind_eq_ok h
+  obtain ⟨c0, _, h⟩ := Res.bind_eq_ok h
+  obtain ⟨⟨v', ver'⟩, hin, h⟩ := Res.bind_eq_ok h
+  obtain ⟨c', _, h⟩ := Res.bind_eq_ok h
+  cases h
+  rw [if_neg (by decide), if_pos rfl] at hin
+  obtain ⟨⟨op, c1, v1⟩, _, hin⟩ := Res.bind_eq_ok hin
+  obtain ⟨⟨bid, c2, v2⟩, _, hin⟩ := Res.bind_eq_ok hin
+  obtain ⟨⟨rst, c3, v3⟩, _, hin⟩ := Res.bind_eq_ok hin
+  obtain ⟨⟨rs, c4, v4⟩, _, hin⟩ := Res.bind_eq_ok hin
+  obtain ⟨⟨msg, c5, v5⟩, _, hin⟩ := Res.bind_eq_ok hin
+  obtain ⟨⟨acv, c6, v6⟩, _, hin⟩ := Res.bind_eq_ok hin
+  dsimp only at hin
+  split at hin
+  · rename_i hc
+    obtain ⟨⟨pl, c7, v7⟩, hpl, hin⟩ := Res.bind_eq_ok hin
+    obtain ⟨⟨me, c8, v8⟩, _, hin⟩ := Res.bind_eq_ok hin
+    cases hin
+    obtain ⟨x, rfl⟩ := decDyn_ok hpl
+    exact ⟨op, bid, rst, rs, msg, acv, _, me, rfl, Or.inr ⟨hc.1, x, rfl⟩⟩
+  · obtain ⟨⟨pl, c7, v7⟩, hpl, hin⟩ := Res.bind_eq_ok hin
+    obtain ⟨⟨me, c8, v8⟩, _, hin⟩ := Res.bind_eq_ok hin
+    cases hin
+    cases hpl
+    exact ⟨op, bid, rst, rs, msg, acv, _, me, rfl, Or.inl rfl⟩
+
+theorem decCustom_attr {S : Schema} {fuel id tag : Nat} {c : Cur} {ver : Option Ver}
+    {v : Val} {st : DecSt}
+    (h : decCustom S (fuel + 1) Cust.attr id tag c ver = .ok (v, st)) :
+    ∃ name idx x, v = .struct [.text name, idx, .iface (some (S.attrDyn name, x))] := by
+  rw [decCustom] at h
+  rw [if_neg (by decide)] at h
+  obtain ⟨it, _, h⟩ := Res.bind_eq_ok h
+  obtain ⟨c0, _, h⟩ := Res.bind_eq_ok h
+  obtain ⟨⟨v', ver'⟩, hin, h⟩ := Res.bind_eq_ok h
+  obtain ⟨c', _, h⟩ := Res.bind_eq_ok h
+  cases h
+  rw [if_neg (by decide), if_neg (by decide), if_pos rfl] at hin
+  obtain ⟨⟨name, c1⟩, _, hin⟩ := Res.bind_eq_ok hin
+  dsimp only at hin
+  split at hin
+  · obtain ⟨⟨i, c2⟩, _, hin⟩ := Res.bind_eq_ok hin
+    obtain ⟨⟨idx, c2', v2⟩, hidx, hin⟩ := Res.bind_eq_ok hin
+    obtain ⟨⟨x, c3, v3⟩, hx, hin⟩ := Res.bind_eq_ok hin
+    cases hin
+    obtain ⟨y, rfl⟩ := decDyn_ok hx
+    exact ⟨name, idx, y, rfl⟩
+  · obtain ⟨⟨idx, c2', v2⟩, hidx, hin⟩ := Res.bind_eq_ok hin
+    obtain ⟨⟨x, c3, v3⟩, hx, hin⟩ := Res.bind_eq_ok hin
+    cases hin
+    obtain ⟨y, rfl⟩ := decDyn_ok hx
+    exact ⟨name, idx, y, rfl⟩
+
+theorem decCustom_getResponse {S : Schema} {fuel id tag : Nat} {c : Cur} {ver : Option Ver}
+    {v : Val} {st : DecSt}
+    (h : decCustom S (fuel + 1) Cust.getResponse id tag c ver = .ok (v, st)) :
+    ∃ ot uid d x, v = .struct [ot, uid, .iface (some (d, x))] ∧
+      S.objectDyn ot.asInt.toNat = some d := by
+  rw [decCustom] at h
+  rw [if_neg (by decide)] at h
+  obtain ⟨it, _, h⟩ := Res.bind_eq_ok h
+  obtain ⟨c0, _, h⟩ := Res.bind_eq_ok h
+  obtain ⟨⟨v', ver'⟩, hin, h⟩ := Res.bind_eq_ok h
+  obtain ⟨c', _, h⟩ := Res.bind_eq_ok h
+  cases h
+  rw [if_neg (by decide), if_neg (by decide), if_neg (by decide), if_neg (by decide),
+    if_neg (by decide), if_pos rfl] at hin
+  obtain ⟨⟨ot, c1, v1⟩, _, hin⟩ := Res.bind_eq_ok hin
+  obtain ⟨⟨uid, c2, v2⟩, _, hin⟩ := Res.bind_eq_ok hin
+  dsimp only at hin
+  split at hin
+  · cases hin
+  · rename_i d hd
+    obtain ⟨⟨obj, c3, v3⟩, ho, hin⟩ := Res.bind_eq_ok hin
+    cases hin
+    obtain ⟨x, rfl⟩ := decDyn_ok ho
+    exact ⟨ot, uid, d, x, rfl, hd⟩
+
+theorem decCustom_registerRequest {S : Schema} {fuel id tag : Nat} {c : Cur} {ver : Option Ver}
+    {v : Val} {st : DecSt}
+    (h : decCustom S (fuel + 1) Cust.registerRequest id tag c ver = .ok (v, st)) :
+    ∃ ot ta d x, v = .struct [ot, ta, .iface (some (d, x))] ∧
+      S.objectDyn ot.asInt.toNat = some d := by
+  rw [decCustom] at h
+  rw [if_neg (by decide)] at h
+  obtain ⟨it, _, h⟩ := Res.bind_eq_ok h
+  obtain ⟨c0, _, h⟩ := Res.bind_eq_ok h
+  obtain ⟨⟨v', ver'⟩, hin, h⟩ := Res.bind_eq_ok h
+  obtain ⟨c', _, h⟩ := Res.bind_eq_ok h
+  cases h
+  rw [if_neg (by decide), if_neg (by decide), if_neg (by decide), if_neg (by decide),
+    if_neg (by decide), if_neg (by decide), if_pos rfl] at hin
+  obtain ⟨⟨ot, c1, v1⟩, _, hin⟩ := Res.bind_eq_ok hin
+  obtain ⟨⟨ta, c2, v2⟩, _, hin⟩ := Res.bind_eq_ok hin
+  dsimp only at hin
+  split at hin
+  · cases hin
+  · rename_i d hd
+    obtain ⟨⟨obj, c3, v3⟩, ho, hin⟩ := Res.bind_eq_ok hin
+    cases hin
+    obtain ⟨x, rfl⟩ := decDyn_ok ho
+    exact ⟨ot, ta, d, x, rfl, hd⟩
+
+theorem decCustom_exportResponse {S : Schema} {fuel id tag : Nat} {c : Cur} {ver : Option Ver}
+    {v : Val} {st : DecSt}
+    (h : decCustom S (fuel + 1) Cust.exportResponse id tag c ver = .ok (v, st)) :
+    ∃ ot uid attrs d x, v = .struct [ot, uid, attrs, .iface (some (d, x))] ∧
+      S.objectDyn ot.asInt.toNat = some d := by
+  rw [decCustom] at h
+  rw [if_neg (by decide)] at h
+  obtain ⟨it, _, h⟩ := Res.bind_eq_ok h
+  obtain ⟨c0, _, h⟩ := Res.bind_eq_ok h
+  obtain ⟨⟨v', ver'⟩, hin, h⟩ := Res.bind_eq_ok h
+  obtain ⟨c', _, h⟩ := Res.bind_eq_ok h
+  cases h
+  rw [if_neg (by decide), if_neg (by decide), if_neg (by decide), if_neg (by decide),
+    if_neg (by decide), if_neg (by decide), if_neg (by decide), if_pos rfl] at hin
+  obtain ⟨⟨ot, c1, v1⟩, _, hin⟩ := Res.bind_eq_ok hin
+  obtain ⟨⟨uid, c2, v2⟩, _, hin⟩ := Res.bind_eq_ok hin
+  obtain ⟨⟨attrs, c3, v3⟩, _, hin⟩ := Res.bind_eq_ok hin
+  dsimp only at hin
+  split at hin
+  · cases hin
+  · rename_i d hd
+    obtain ⟨⟨obj, c4, v4⟩, ho, hin⟩ := Res.bind_eq_ok hin
+    cases hin
+    obtain ⟨x, rfl⟩ := decDyn_ok ho
+    exact ⟨ot, uid, attrs, d, x, rfl, hd⟩
+
+theorem decCustom_importRequest {S : Schema} {fuel id tag : Nat} {c : Cur} {ver : Option Ver}
+    {v : Val} {st : DecSt}
+    (h : decCustom S (fuel + 1) Cust.importRequest id tag c ver = .ok (v, st)) :
+    ∃ uid rep kwt attrs ot d x, v = .struct [uid, rep, kwt, attrs, .iface (some (d, x))] ∧
+      importObjectType S attrs = some ot ∧ S.objectDyn ot = some d := by
+  rw [decCustom] at h
+  rw [if_neg (by decide)] at h
+  obtain ⟨it, _, h⟩ := Res.bind_eq_ok h
+  obtain ⟨c0, _, h⟩ := Res.bind_eq_ok h
+  obtain ⟨⟨v', ver'⟩, hin, h⟩ := Res.bind_eq_ok h
+  obtain ⟨c', _, h⟩ := Res.bind_eq_ok h
+  cases h
+  rw [if_neg (by decide), if_neg (by decide), if_neg (by decide), if_neg (by decide),
+    if_neg (by decide), if_neg (by decide), if_neg (by decide), if_neg (by decide), if_pos rfl] at hin
+  obtain ⟨⟨uid, c1, v1⟩, _, hin⟩ := Res.bind_eq_ok hin
+  obtain ⟨⟨rep, c2, v2⟩, _, hin⟩ := Res.bind_eq_ok hin
+  obtain ⟨⟨kwt, c3, v3⟩, _, hin⟩ := Res.bind_eq_ok hin
+  obtain ⟨⟨attrs, c4, v4⟩, _, hin⟩ := Res.bind_eq_ok hin
+  dsimp only at hin
+  split at hin
+  · cases hin
+  · rename_i ot hot
+    split at hin
+    · cases hin
+    · rename_i d hd
+      obtain ⟨⟨obj, c5, v5⟩, ho, hin⟩ := Res.bind_eq_ok hin
+      cases hin
+      obtain ⟨x, rfl⟩ := decDyn_ok ho
+      exact ⟨uid, rep, kwt, attrs, ot, d, x, rfl, hot, hd⟩
+
+/-! dispatch tables -/
+
+theorem payloadDyn_of_find {S : Schema} {op o rq rs : Nat}
+    (h : S.ops.find? (fun p => p.1 == op) = some (o, rq, rs)) :
+    S.payloadDyn op false = rq ∧ S.payloadDyn op true = rs := by
+  unfold Schema.payloadDyn
+  rw [h]
+  exact ⟨rfl, rfl⟩
+
+theorem find?_of_mem_nodup {l : List (Nat × Nat × Nat)} (hn : (l.map (·.1)).Nodup)
+    {p : Nat × Nat × Nat} (hp : p ∈ l) : l.find? (fun q => q.1 == p.1) = some p := by
+  induction l with
+  | nil => exact nomatch hp
+  | cons a l ih =>
+    rw [List.map_cons, List.nodup_cons] at hn
+    rw [List.find?_cons]
+    rcases List.mem_cons.1 hp with rfl | hp'
+    · simp
+    · have hne : a.1 ≠ p.1 := by
+        intro he
+        exact hn.1 (he ▸ List.mem_map_of_mem (f := (·.1)) hp')
+      have hb : (a.1 == p.1) = false := by simpa using hne
+      rw [hb]
+      exact ih hn.2 hp'
+
+theorem payloadDyn_registered {S : Schema} (hn : (S.ops.map (·.1)).Nodup) {op rq rs : Nat}
+    (hp : (op, rq, rs) ∈ S.ops) : S.payloadDyn op false = rq ∧ S.payloadDyn op true = rs :=
+  payloadDyn_of_find (find?_of_mem_nodup hn hp)
+
+theorem payloadDyn_unknown {S : Schema} {op : Nat} (h : ∀ p ∈ S.ops, p.1 ≠ op) (r : Bool) :
+    S.payloadDyn op r = S.unknownPayloadDyn := by
+  unfold Schema.payloadDyn
+  have : S.ops.find? (fun p => p.1 == op) = none := by
+    rw [List.find?_eq_none]
+    intro p hp
+    simpa using h p hp
+  rw [this]
+
+theorem payloadDyn_cases (S : Schema) (op : Nat) (r : Bool) :
+    (∃ rq rs, (op, rq, rs) ∈ S.ops ∧ S.payloadDyn op r = if r then rs else rq) ∨
+    ((∀ p ∈ S.ops, p.1 ≠ op) ∧ S.payloadDyn op r = S.unknownPayloadDyn) := by
+  cases hf : S.ops.find? (fun p => p.1 == op) with
+  | none =>
+    right
+    rw [List.find?_eq_none] at hf
+    have h : ∀ p ∈ S.ops, p.1 ≠ op := fun p hp => by simpa using hf p hp
+    exact ⟨h, payloadDyn_unknown h r⟩
+  | some p =>
+    left
+    obtain ⟨o, rq, rs⟩ := p
+    have ho : o = op := by simpa using List.find?_some hf
+    subst ho
+    refine ⟨rq, rs, List.mem_of_find?_eq_some hf, ?_⟩
+    unfold Schema.payloadDyn
+    rw [hf]
+
+theorem attrDyn_custom {S : Schema} {name : Bytes}
+    (h : name.take 2 = [0x78, 0x2D] ∨ name.take 2 = [0x79, 0x2D]) : S.attrDyn name = S.valueDyn := by
+  unfold Schema.attrDyn
+  have : (name.take 2 == [0x78, 0x2D] || name.take 2 == [0x79, 0x2D]) = true := by
+    rcases h with h | h <;> simp [h]
+  simp only [this, if_true]
+
+theorem attrDyn_unknown {S : Schema} {name : Bytes}
+    (h : ∀ p ∈ S.attrs, p.1 ≠ packName name) : S.attrDyn name = S.valueDyn := by
+  unfold Schema.attrDyn
+  dsimp only
+  split
+  · rfl
+  · have : lookupNat S.attrs (packName name) = none := by
+      unfold lookupNat
+      have : S.attrs.find? (fun p => p.1 == packName name) = none := by
+        rw [List.find?_eq_none]
+        intro p hp
+        simpa using h p hp
+      rw [this]
+    rw [this]
+
+theorem attrDyn_registered {S : Schema} {name : Bytes} {d : Nat}
+    (hc : ¬ (name.take 2 = [0x78, 0x2D] ∨ name.take 2 = [0x79, 0x2D]))
+    (h : lookupNat S.attrs (packName name) = some d) : S.attrDyn name = d := by
+  unfold Schema.attrDyn
+  have : (name.take 2 == [0x78, 0x2D] || name.take 2 == [0x79, 0x2D]) = false := by
+    simpa using hc
+  simp only [this, Bool.false_eq_true, if_false, h]
+
+/-! opaque values -/
+
+theorem Cur.start_enc (t : Item) (h : t.InRange) :
+    Cur.start (enc t) = .ok { items := [t.raw], tail := none } := by
+  rw [enc_eq_encList]
+  exact Cur.start_encList [t] (by rw [Item.AllInRange, Item.AllInRange]; exact ⟨h, trivial⟩)
+
+/-- the UnknownPayload decoder on the cursor over an encoded structure returns its children. -/
+theorem decCustom_unknownPayload_enc (S : Schema) (tag : Nat) (its : List Item)
+    (h : (Item.struct tag its).InRange) (fuel : Nat) (hf : Item.sizeList its ≤ fuel) (id : Nat)
+    (ver : Option Ver) (rs : List RawItem) :
+    decCustom S (fuel + 1) Cust.unknownPayload id tag
+        { items := (Item.struct tag its).raw :: rs, tail := none } ver
+      = .ok (.struct [.anyStruct its], { items := rs, tail := none }, ver) := by
+  rw [Item.InRange] at h
+  rw [decCustom, if_pos rfl,
+    Cur.struct_raw tag its rs h.2.2.2 _ its (decodeFields_enc_aux its h.2.2.2 fuel hf)]
+  rfl
+
+theorem encCustom_unknownPayload (S : Schema) (fuel tag : Nat) (its : List Item) (ver : Option Ver) :
+    encCustom S (fuel + 1) Cust.unknownPayload tag (.struct [.anyStruct its]) ver
+      = .ok ([.struct tag its], ver) := by
+  rw [encCustom.eq_def]
+  dsimp only
+  rw [if_neg (by decide), if_neg (by decide), if_pos rfl]
+  rfl
+
+theorem Item.withTag_tag (t : Item) : t.withTag t.tag = t := by
+  cases t <;> rfl
+
+/-- `ttlv.Value` (unknown / custom attribute values): decode returns the item, encode under the same tag
+    writes it back. -/
+theorem decK_any_enc (S : Schema) (t : Item) (h : t.InRange) (fuel : Nat) (hf : t.size ≤ fuel)
+    (ver : Option Ver) (rs : List RawItem) :
+    decK S (fuel + 1) .any t.tag { items := t.raw :: rs, tail := none } ver
+      = .ok (.any (some t), { items := rs, tail := none }, ver) := by
+  rw [decK, decodeValue_enc_aux t h fuel hf rs]
+  rfl
+
+theorem encK_any (S : Schema) (fuel : Nat) (t : Item) (ver : Option Ver) :
+    encK S (fuel + 1) .any t.tag (.any (some t)) ver = .ok ([t], ver) := by
+  rw [encK, Item.withTag_tag]
+
+/-- a dyn id denotes the opaque payload type: pointer to a struct whose codecs are the UnknownPayload ones. -/
+def Schema.isOpaquePayloadDyn (S : Schema) (d : Nat) : Bool :=
+  match (S.dyn d).kind with
+  | .ptr (.struct u) =>
+    (S.structDef u).decCustom && (S.structDef u).encCustom &&
+      decide ((S.structDef u).custom = Cust.unknownPayload)
+  | _ => false
+
+theorem unmarshal_opaque_enc (S : Schema) (d : Nat) (hd : S.isOpaquePayloadDyn d = true)
+    (tag : Nat) (its : List Item) (h : (Item.struct tag its).InRange) :
+    unmarshal S d tag (enc (.struct tag its)) = .ok (.ptr (some (.struct [.anyStruct its]))) := by
+  unfold Schema.isOpaquePayloadDyn at hd
+  split at hd
+  · rename_i u hk
+    simp only [Bool.and_eq_true, decide_eq_true_eq] at hd
+    obtain ⟨⟨h1, _⟩, h3⟩ := hd
+    have htag : tag ≠ 0 := by rw [Item.InRange] at h; omega
+    have hsz := size_le_length_aux (.struct tag its)
+    rw [Item.size] at hsz
+    unfold unmarshal
+    rw [Cur.start_enc _ h]
+    simp only [Res.ok_bind, hk, if_neg htag]
+    rw [show (enc (Item.struct tag its)).length + 8 = ((enc (Item.struct tag its)).length + 6 + 1) + 1
+      from rfl, decK]
+    simp only [h1, if_true, h3]
+    rw [decCustom_unknownPayload_enc S tag its h _ (by omega)]
+    rfl
+  · exact nomatch hd
+
+theorem marshal_opaque (S : Schema) (d : Nat) (hd : S.isOpaquePayloadDyn d = true)
+    (tag : Nat) (its : List Item) (htag : tag ≠ 0) :
+    marshal S d tag (.ptr (some (.struct [.anyStruct its]))) = .ok (enc (.struct tag its)) := by
+  unfold Schema.isOpaquePayloadDyn at hd
+  split at hd
+  · rename_i u hk
+    simp only [Bool.and_eq_true, decide_eq_true_eq] at hd
+    obtain ⟨⟨_, h2⟩, h3⟩ := hd
+    unfold marshal
+    simp only [if_neg htag, hk]
+    rw [show (100000 : Nat) = 99998 + 1 + 1 from rfl, encK, encK]
+    simp only [h2, if_true, h3]
+    rw [encCustom_unknownPayload]
+    simp only [Res.ok_bind, Res.pure_eq, ← enc_eq_encList]
+  · exact nomatch hd
+
 end Kmip
